@@ -27,6 +27,7 @@ func (e *verifPcEnv) verifPcBridgeToken(ek erc20keeper.Keeper) string {
 	bridgeDenom := crosschaintypes.NewBridgeDenom(verifChain, verifAddr1)
 	e.bank.SetDenomMetaData(e.ctx, banktypes.Metadata{Base: verifBase, Display: verifBase, Name: "Tether", Symbol: "USDT",
 		DenomUnits: []*banktypes.DenomUnit{{Denom: verifBase, Exponent: 0, Aliases: []string{bridgeDenom}}}})
+	ek.SetAliasesDenom(e.ctx, verifBase, bridgeDenom)
 	ek.AddTokenPair(e.ctx, erc20types.TokenPair{Erc20Address: verifErc20Token.Hex(), Denom: verifBase, Enabled: true, ContractOwner: erc20types.OWNER_MODULE})
 	e.evmk.Contracts = append(e.evmk.Contracts, verifErc20Token)
 	p := erc20types.DefaultParams()
